@@ -171,9 +171,36 @@ def _k3(facts, rep, sites, out):
     if not (seen_ok and max(reach) < 4000):
         rep.add(Finding("R01.1", "sweep counter unbounded", "the sweep counter can grow without bound (reachable values up to %s): its increment eventually overflows"
                         % max(reach), None))
-    # sort keys
+    # sort keys / comparators: the -o sort function as a whole, on an unknown -o string and an unknown row vector (the sort
+    # contracts call every key / comparator closure on arbitrary rows); the closures one by one if that run is imprecise
     sort_fn = facts.one("sort_printed_planes")
-    for cb in facts.closures_of(sort_fn.name):
+
+    def a_sortfn(I, st):
+        from ..absint.domain import StrV, Top, VecV
+        from ..absint.k2 import args_value
+        av = args_value(facts, {})
+        av = av.set("order_by", VecV(None, IntV("usize", None, 0, 1 << 20), StrV("opaque")))
+        row = K3.row_with_hulls(facts, hulls)
+        out = []
+        for i in range(1, sort_fn.arg_count + 1):
+            ty = sort_fn.locals[i]["ty"]["s"]
+            if ty.endswith("Args"):
+                out.append(ref_to(I, st, av))
+            elif "Plane" in ty:
+                rr = ref_to(I, st, row)
+                elem = TupleV([ref_to(I, st, IntV("u32", None, 1, (1 << 24) - 1)), rr]) if "(&" in ty else rr
+                out.append(ref_to(I, st, VecV(None, IntV("usize", None, 0, 1 << 30), elem), True))
+            else:
+                out.append(Top(why="arg %d" % i))
+        return out
+    try:
+        I, v, st = K3.run_fn(facts, sort_fn.name, a_sortfn, "K3 -o sort, any letters")
+        whole_ok = st is not None and not any(w[0] in ("unmodelled", "switch", "terminator") for w in I.warnings)
+    except Broken:
+        whole_ok = False
+    if whole_ok:
+        warns += _merge(sites, I)
+    for cb in (facts.closures_of(sort_fn.name) if not whole_ok else []):
         nargs = cb.arg_count
         def a_key(I, st, nargs=nargs):
             row = K3.row_with_hulls(facts, hulls)
